@@ -236,6 +236,19 @@ where
             pc.g_base_compressed_vec[k] = pc.g_base_vec[k].compress();
         }
     }
+    if let Some(arr) = spec["gbc_scale"].as_array() {
+        // only the COMPRESSED form of a blinding generator is another point (public fields of PedersenGens): what the transcript is handed differs
+        // from the point the equation uses
+        let k = arr[0].as_u64().unwrap() as usize;
+        let c = sc_unhex(arr[1].as_str().unwrap());
+        if k < pc.g_base_vec.len() {
+            pc.g_base_compressed_vec[k] = (&pc.g_base_vec[k] * c).compress();
+        }
+    }
+    if let Some(c) = spec["hc_scale"].as_str() {
+        let c = sc_unhex(c);
+        pc.h_base_compressed = (&pc.h_base * c).compress();
+    }
     if let Some(c) = spec["gb0_eq_cH"].as_str() {
         // degenerate Pedersen generators: Gb_0 = c * H (two openings can then share one commitment)
         let c = sc_unhex(c);
@@ -318,7 +331,39 @@ where
     for<'p> &'p P: Add<Output = P>,
     P::Compressed: FixedBytesRepr + IsIdentity + Identity,
 {
-    let params = build_params::<P>(spec)?;
+    build_statement_with::<P>(spec, None)
+}
+
+/// the key under which two statement specs ask for the same parameter set
+fn params_key(spec: &Value) -> String {
+    format!(
+        "{}|{}|{}|{}|{}|{}|{}",
+        spec["bits"], spec["cap"], spec["T"], spec["h_scale"], spec["gb_scale"], spec["gb0_eq_cH"], spec["gb_eq"]
+    ) + &format!("|{}|{}", spec["gbc_scale"], spec["hc_scale"])
+}
+
+/// with a cache: statements asking for the same parameter set share ONE parameter object (clones of it: same generator tables behind the
+/// same Arc), as a caller does who builds its parameters once
+fn build_statement_with<P: Grp>(spec: &Value, cache: Option<&mut std::collections::HashMap<String, RangeParameters<P>>>) -> Result<(RangeParameters<P>, RangeStatement<P>), String>
+where
+    for<'p> &'p P: Mul<Scalar, Output = P>,
+    for<'p> &'p P: Add<Output = P>,
+    P::Compressed: FixedBytesRepr + IsIdentity + Identity,
+{
+    let params = match cache {
+        Some(c) => {
+            let k = params_key(spec);
+            match c.get(&k) {
+                Some(p) => p.clone(),
+                None => {
+                    let p = build_params::<P>(spec)?;
+                    c.insert(k, p.clone());
+                    p
+                },
+            }
+        },
+        None => build_params::<P>(spec)?,
+    };
     let mut commitments = vec![];
     for c in spec["commit"].as_array().unwrap() {
         // a bare opening {"v","r"} or a point spec {"open":..,"shiftH":..} / {"junk":..}
@@ -338,6 +383,12 @@ where
     if let Some(rf) = spec["raw_fields"].as_object() {
         if let Some(ps) = rf.get("promises").and_then(|x| x.as_array()) {
             st.minimum_value_promises = ps.iter().map(|p| if p.is_null() { None } else { Some(u64_of(p)) }).collect();
+        }
+        if let Some(j) = rf.get("replace_commitment_point").and_then(|x| x.as_u64()) {
+            // the uncompressed point is replaced, its compressed form (what the transcript absorbs) is kept
+            if let Some(c) = st.commitments.get_mut(j as usize) {
+                *c = P::junk(4242);
+            }
         }
         if let Some(n) = rf.get("truncate_commitments").and_then(|x| x.as_u64()) {
             st.commitments.truncate(n as usize);
@@ -387,8 +438,14 @@ where
     let nd1 = proof.extension_degree() as usize;
     // d1 length is not observable directly; for prover outputs and decoded proofs it equals the tag
     let w = Wire::parse(&bytes, nd1);
+    let serde_form = match catch_unwind(AssertUnwindSafe(|| bincode::serialize(proof))) {
+        Ok(Ok(b)) => hex(&b),
+        Ok(Err(_)) => "err".to_string(),
+        Err(_) => "panic".to_string(),
+    };
     json!({
         "bytes": hex(&bytes),
+        "serde": serde_form,
         "tag": w.tag,
         "d1": w.d1.iter().map(|b| hex(b)).collect::<Vec<_>>(),
         "r1": hex(&w.r1), "s1": hex(&w.s1),
@@ -648,7 +705,20 @@ where
                 CommitmentOpening::new(v, r)
             })
             .collect();
-        let reused = m["reuse_witness_of"].as_u64().and_then(|k| witness_pool.get(k as usize).cloned().flatten());
+        let reused = m["reuse_witness_of"].as_u64().and_then(|k| witness_pool.get(k as usize).cloned().flatten()).or_else(|| {
+            // ... or a witness object built from a TEMPLATE list of openings (which fixes its recorded extension degree) before the real ones are written in
+            m["witness_template"].as_array().and_then(|t| {
+                RangeWitness::init(
+                    t.iter()
+                        .map(|o| {
+                            let (v, r) = opening_of(o);
+                            CommitmentOpening::new(v, r)
+                        })
+                        .collect(),
+                )
+                .ok()
+            })
+        });
         let witness = match reused {
             Some(mut w) if w.openings.len() == openings.len() => {
                 // the caller keeps ONE witness object and writes the new openings into it, element by element
@@ -676,7 +746,12 @@ where
             verif_log::take();
             let mut tr = make_transcript(&m["ctx"]);
             verif_log::enable(log_merlin);
-            let res = catch_unwind(AssertUnwindSafe(|| RangeProof::<P>::prove_with_rng(&mut tr, &st, &witness, &mut rng)));
+            let res = if m["use_os_rng"].as_bool().unwrap_or(false) {
+                // the crate's own entry point with the operating system's generator
+                catch_unwind(AssertUnwindSafe(|| RangeProof::<P>::prove(&mut tr, &st, &witness)))
+            } else {
+                catch_unwind(AssertUnwindSafe(|| RangeProof::<P>::prove_with_rng(&mut tr, &st, &witness, &mut rng)))
+            };
             verif_log::enable(false);
             let ops = verif_log::take();
             rec["tid"] = json!(ops.iter().find_map(|o| if let verif_log::Op::Append { tid, .. } = o { Some(*tid) } else { None }));
@@ -757,6 +832,8 @@ where
         let mut rec = json!({});
         let mode = mode_of(v["mode"].as_str().unwrap_or("VerifyOnly"));
         let mut statements = vec![];
+        let share_params = v["share_params"].as_bool().unwrap_or(false);
+        let mut params_cache: std::collections::HashMap<String, RangeParameters<P>> = std::collections::HashMap::new();
         let mut proofs = vec![];
         let mut transcripts = vec![];
         let mut vgens = vec![];
@@ -776,7 +853,8 @@ where
                 }
             }
             if !vm["stmt"].is_null() {
-                match build_statement::<P>(&vm["stmt"]) {
+                let built = if share_params { build_statement_with::<P>(&vm["stmt"], Some(&mut params_cache)) } else { build_statement::<P>(&vm["stmt"]) };
+                match built {
                     Ok((params, st)) => {
                         if with_gens && v["with_gens"].as_bool().unwrap_or(false) {
                             vgens.push(gens_json::<P>(&params));
